@@ -12,14 +12,18 @@ LEVEL = 'exploration'
 RULE = ('programs of state functions over the behaviour alphabet {next, retry, finish, non-callable, None, raise} with '
         'cleanup functions {None, sequence, raise, non-callable}; ALL sequences over {cycle, stop, start(A|B, with/'
         'without cleanup)} up to the depth bound (exhaustive per program) followed by settling cycles, plus random '
-        'deep sequences; module level: HasStates+Drivable driven by doPoll. distinct = (program, operation sequence); '
+        'deep sequences; threaded part: for every program and every base sequence (depth <= 3 quick / 4 thorough) ending in a '
+        'cycle, a start/stop from a second thread before every line of that cycle (single injection, systematic, '
+        'time-boxed) plus random deep sequences with 1..3 injections; module level: HasStates+Drivable driven by doPoll. distinct = (program, operation sequence); '
         'non-trivial = sequence contains an interruption (stop/start while a run is active)')
 ASSUMPTIONS = ['runs are identified by a unique attribute passed to start()',
                'cleanup-sequence states of the generated programs terminate within 3 calls (else "enough cycles" is undefined)',
-               'sequential part: start/stop are issued between cycles; the threaded part (start/stop between any two '
-               'steps of a cycle) runs under the deterministic scheduler in c14 threaded shards']
+               'threaded part: "between any two steps of a cycle" = before any line executed inside StateMachine.cycle / '
+               '_cleanup / _new_state (sys.monitoring LINE events); the operation is issued by a real second thread which '
+               'is joined before the cycle continues; while the cycling thread holds the machine lock the injection is '
+               'deferred to the next line (a second thread would wait there)']
 REQUIRED = ['sequences', 'inv_bounded', 'inv_init', 'inv_cleanup_once', 'inv_sequence_uninterrupted', 'inv_last_wins',
-            'module_sequences', 'inv_module_status']
+            'module_sequences', 'inv_module_status', 'threaded_single_injection_runs', 'injections_between_lines']
 
 DEPTH = {'quick': 5, 'thorough': 7}
 NPROG = {'quick': 24, 'thorough': 48}
@@ -138,37 +142,119 @@ class Harness:
         return c
 
     def run(self, ops):
+        """ops: ('cycle',) | ('cycle', ((k, op), ...)) | ('stop',) | ('start', state, cleanup)
+
+        a cycle with injections: op is issued from a second thread just before the k-th line executed inside
+        StateMachine.cycle/_cleanup/_new_state during that cycle (see LineInjector)"""
         self.trace = tr = []
         self.counters = {}
+        self.linecounts = []
         sm = self.SM.StateMachine(transition=lambda sm_, new: tr.append(('T', new.__name__ if new else None)))
-        tagn = 0
-        for op in list(ops) + [('cycle',)] * SETTLE:
-            if op[0] == 'cycle':
-                tr.append(('OP', 'cycle'))
-                n0 = len(tr)
-                try:
-                    sm.cycle()
-                    tr.append(('CYC', sum(1 for e in tr[n0:] if e[0] in 'SC')))
-                except Exception as e:
-                    tr.append(('EXC', type(e).__name__, str(e)[:100]))
-            elif op[0] == 'start':
-                tagn += 1
-                kw = {'tag': tagn}
+        self.tagn = 0
+
+        def issue(op, mid=False):
+            if op[0] == 'start':
+                self.tagn += 1
+                kw = {'tag': self.tagn}
                 if op[2]:
                     kw['cleanup'] = self.cfuncs[op[2]]
-                tr.append(('OP', 'start', op[1], op[2], tagn))
+                tr.append(('OP', 'start', op[1], op[2], self.tagn) + (('mid',) if mid else ()))
                 try:
                     sm.start(self.funcs[op[1]], **kw)
                 except Exception as e:
                     tr.append(('EXC', type(e).__name__, str(e)[:100]))
             else:
-                tr.append(('OP', 'stop'))
+                tr.append(('OP', 'stop') + (('mid',) if mid else ()))
                 try:
                     sm.stop()
                 except Exception as e:
                     tr.append(('EXC', type(e).__name__, str(e)[:100]))
+        for op in list(ops) + [('cycle',)] * SETTLE:
+            if op[0] == 'cycle':
+                tr.append(('OP', 'cycle'))
+                n0 = len(tr)
+                inj = LineInjector.current
+                if inj is not None:
+                    inj.arm(sm, issue, op[1] if len(op) > 1 else ())
+                try:
+                    sm.cycle()
+                    tr.append(('CYC', sum(1 for e in tr[n0:] if e[0] in 'SC')))
+                except Exception as e:
+                    tr.append(('EXC', type(e).__name__, str(e)[:100]))
+                if inj is not None:
+                    self.linecounts.append(inj.disarm())
+            else:
+                issue(op)
         tr.append(('END', sm.is_active, sm.statefunc.__name__ if sm.statefunc else None, getattr(sm, 'tag', None)))
         return tr
+
+
+class LineInjector:
+    """'a second thread issues start/stop between any two steps of a cycle'
+
+    sys.monitoring LINE events of StateMachine.cycle / _cleanup / _new_state are the steps; before the k-th line
+    executed during an armed cycle a real second thread issues the operation and is joined. While the cycling thread
+    holds the machine's lock the second thread would just wait: the injection is deferred to the next line."""
+    current = None
+    TOOL = 4
+
+    def __init__(self, SMclass):
+        import sys
+        import threading
+        self.mon = sys.monitoring
+        self.threading = threading
+        self.codes = [SMclass.cycle.__code__, SMclass._cleanup.__code__, SMclass._new_state.__code__]
+        self.sm = None
+        self.count = 0
+        self.todo = []
+        self.injected = 0
+        self.deferred = 0
+        self.after = 0
+        self.mon.use_tool_id(self.TOOL, 'c14-inject')
+        self.mon.register_callback(self.TOOL, self.mon.events.LINE, self.on_line)
+        for c in self.codes:
+            self.mon.set_local_events(self.TOOL, c, self.mon.events.LINE)
+        self.cycler = threading.get_ident()
+        LineInjector.current = self
+
+    def close(self):
+        for c in self.codes:
+            self.mon.set_local_events(self.TOOL, c, 0)
+        self.mon.register_callback(self.TOOL, self.mon.events.LINE, None)
+        self.mon.free_tool_id(self.TOOL)
+        LineInjector.current = None
+
+    def arm(self, sm, issue, injections):
+        self.sm, self.issue, self.count = sm, issue, 0
+        self.todo = sorted(injections, key=lambda x: x[0])
+
+    def disarm(self):
+        # injections whose line was never reached (or deferred past the end) are issued right after the cycle
+        for _, op in self.todo:
+            self.after += 1
+            self.second_thread(op, False)
+        self.todo = []
+        self.sm = None
+        return self.count
+
+    def second_thread(self, op, mid=True):
+        t = self.threading.Thread(target=self.issue, args=(op, mid))
+        t.start()
+        t.join(10)
+        if t.is_alive():
+            raise RuntimeError('second thread blocked in start/stop')
+
+    def on_line(self, code, line):
+        if self.sm is None or self.threading.get_ident() != self.cycler:
+            return
+        self.count += 1
+        while self.todo and self.todo[0][0] <= self.count:
+            if self.sm._lock.locked():
+                self.deferred += 1
+                return
+            _, op = self.todo.pop(0)
+            self.injected += 1
+            self.second_thread(op)
 
 
 def check_trace(tr, maxloops=10, counts=None):
@@ -230,7 +316,16 @@ def check_trace(tr, maxloops=10, counts=None):
             if tag != cur:
                 # a new run is entered: the previous one must be over
                 if cur is not None and phase == 'cleanup-seq':
-                    v.append(('cleanup-sequence-interrupted', e))
+                    # mechanism: was the cleanup function called in the last iteration the loop limit allows
+                    # (then its follow-up state is dropped by the limit, never called) or was a running sequence cut?
+                    ci = max(i for i in range(idx) if tr[i][0] == 'C')
+                    c0 = max(i for i in range(ci) if tr[i][:2] == ('OP', 'cycle'))
+                    chain = sum(1 for x in tr[c0:ci + 1] if x[0] in 'SC' and x[3] == tr[ci][3])
+                    seq_called = any(x[0] == 'S' and x[3] == tr[ci][3] for x in tr[ci + 1:idx])
+                    if not seq_called and chain >= maxloops:
+                        v.append(('cleanup-sequence-dropped-at-loop-limit', e))
+                    else:
+                        v.append(('cleanup-sequence-interrupted', e))
                 cur, phase = tag, 'normal'
                 pending_interrupt = False
             entered.add(tag)
@@ -318,6 +413,8 @@ def interesting(ops):
     """non-trivial: a stop/start is issued while a run may be active (after a start and a cycle)"""
     seen_start = cyc = False
     for op in ops:
+        if op[0] == 'cycle' and len(op) > 1 and op[1] and seen_start:
+            return True
         if op[0] == 'start':
             if seen_start and cyc:
                 return True
@@ -334,7 +431,7 @@ def judge(r, prog_id, prog, ops, tr, counts):
     viols = check_trace(tr, counts=counts)
     for viol in viols:
         r.violation(f'C14/{viol[0]}', f'{viol[0]}: {viol[1:]}'[:300],
-                    {'kind': 'sm', 'prog': [prog[0], prog[1]], 'ops': [list(o) for o in ops], 'trace': tr[-60:]})
+                    {'kind': 'sm', 'prog': [prog[0], prog[1]], 'ops': [list(o) for o in ops], 'trace': [list(e) for e in tr[-60:]]})
     return viols
 
 
@@ -373,6 +470,73 @@ def run_random(r, api, rng, n):
         r.case(('rnd', repr(prog), ops), interesting(ops))
     r.count('sequences', n)
     r.count('random_sequences', n)
+    for k, c in counts.items():
+        r.count(k, c)
+
+
+INJ_OPS = [('stop',), ('start', 'A', None), ('start', 'A', 'c'), ('start', 'B', None), ('start', 'B', 'c')]
+
+
+def run_threaded(r, api, progs, rng, shard_idx, nshards, base_depth, nrandom, budget):
+    """start/stop from a second thread between any two steps (lines) of a cycle
+
+    systematic: for every program of this shard, every base sequence up to base_depth that ends in a cycle, every
+    line of that last cycle and every operation: one run with a single injection (complete unless the time budget
+    ends it); random: deep sequences with 1..3 injections anywhere"""
+    import time
+    counts = {}
+    inj = LineInjector(api.StateMachine)
+    t_end = time.time() + budget
+    n = 0
+    complete = True
+    try:
+        for pi, prog in enumerate(progs):
+            if pi % nshards != shard_idx:
+                continue
+            h = Harness(api, prog)
+            for d in range(1, base_depth + 1):
+                for base in itertools.product(ALPHABET, repeat=d):
+                    if base[-1][0] != 'cycle' or not any(o[0] == 'start' for o in base):
+                        continue
+                    h.run(base)
+                    nlines = h.linecounts[sum(1 for o in base if o[0] == 'cycle') - 1]
+                    r.maximum('lines_in_one_cycle', nlines)
+                    if time.time() > t_end:
+                        complete = False
+                        break
+                    for k in range(1, nlines + 1):
+                        for op in INJ_OPS:
+                            ops = base[:-1] + (('cycle', ((k, op),)),)
+                            tr = h.run(ops)
+                            n += 1
+                            judge(r, pi, prog, ops, tr, counts)
+                            if r.want_sample() and n % 499 == 0:
+                                r.sample({'program': [prog[0], prog[1]], 'ops': [list(o) for o in ops],
+                                          'trace_tail': [list(map(str, e)) for e in tr[-10:]]})
+        r.bulk(n, n)
+        r.count('threaded_single_injection_runs', n)
+        r.count('threaded_sweep_complete' if complete else 'threaded_sweep_truncated')
+        for i in range(nrandom):
+            prog = normalize(gen_prog(rng))
+            h = Harness(api, prog)
+            ops = []
+            for _ in range(rng.randint(6, 12)):
+                op = rng.choice(ALPHABET + [('cycle',)] * 3)
+                if op[0] == 'cycle' and rng.random() < 0.5:
+                    op = ('cycle', tuple(sorted(((rng.randint(1, 30), rng.choice(INJ_OPS)) for _ in range(rng.choice([1, 1, 2, 3]))),
+                                             key=lambda x: x[0])))
+                ops.append(op)
+            ops = tuple(ops)
+            tr = h.run(ops)
+            judge(r, 'rnd-thr', prog, ops, tr, counts)
+            r.case(('rnd-thr', repr(prog), ops), interesting(ops))
+        r.count('threaded_random_runs', nrandom)
+        r.count('sequences', n + nrandom)
+        r.count('injections_between_lines', inj.injected)
+        r.count('injections_deferred_while_lock_held', inj.deferred)
+        r.count('injections_after_cycle', inj.after)
+    finally:
+        inj.close()
     for k, c in counts.items():
         r.count(k, c)
 
@@ -476,7 +640,9 @@ def run_module(r, rng, n):
 
 def plan(tier, seed, scale=1.0):
     return [{'idx': i, 'depth': DEPTH[tier], 'nprog': NPROG[tier], 'nrandom': int(NRANDOM[tier] * scale),
-             'nmodule': int(NMODULE[tier] * scale / 16) + 1} for i in range(16)]
+             'nmodule': int(NMODULE[tier] * scale / 16) + 1,
+             'thr_depth': 3 if tier == 'quick' else 4, 'thr_random': int((400 if tier == 'quick' else 20000) * scale),
+             'thr_budget': 6 if tier == 'quick' else 600} for i in range(16)]
 
 
 def programs(seed, nprog):
@@ -495,6 +661,7 @@ def run_shard(shard):
     run_exhaustive(r, api, progs, shard['depth'], shard['idx'], 16)
     r.exhaustive = True
     run_random(r, api, rng, shard['nrandom'])
+    run_threaded(r, api, progs, rng, shard['idx'], 16, shard.get('thr_depth', 3), shard.get('thr_random', 400), shard.get('thr_budget', 6))
     run_module(r, rng, shard['nmodule'])
     return r.result()
 
@@ -508,8 +675,13 @@ def replay(case):
     prog = normalize((case['prog'][0], case['prog'][1]))
     prog = ({k: [tuple(b) if isinstance(b, list) else b for b in v] for k, v in prog[0].items()},
             {k: tuple(b) if isinstance(b, list) else b for k, b in prog[1].items()})
-    ops = [tuple(o) for o in case['ops']]
-    tr = Harness(api, prog).run(ops)
+    ops = [tuple(o) if len(o) < 2 or o[0] != 'cycle' else ('cycle', tuple((k, tuple(op)) for k, op in o[1])) for o in case['ops']]
+    inj = LineInjector(api.StateMachine) if any(o[0] == 'cycle' and len(o) > 1 for o in ops) else None
+    try:
+        tr = Harness(api, prog).run(ops)
+    finally:
+        if inj:
+            inj.close()
     judge(r, 'replay', prog, ops, tr, {})
     r.case(('replay',), True)
     return r.result()
